@@ -47,6 +47,11 @@ def main():
     meta = {"property": prop, "name": name, "needs_to_manifest": needs, "repo_head": run("git -C /repo rev-parse --short HEAD")[1].strip(), "ran": []}
     try:
         rc, out = run(f"git apply --check {dest}/patch.diff && git apply {dest}/patch.diff", cwd=wt)
+        if rc != 0:
+            # written against an older /repo HEAD: a verification hook added since then may have
+            # shifted the context of a hunk
+            rc, out = run(f"patch -p1 --fuzz=3 --no-backup-if-mismatch < {dest}/patch.diff", cwd=wt)
+            meta["patch_applied_with_fuzz"] = True
         assert rc == 0, "patch does not apply: " + out
         meta["patch_files"] = run("git diff --stat", cwd=wt)[1].strip().splitlines()
         # 1. repository suite with the change
